@@ -7,7 +7,9 @@ LABELS = [b'a', b'b', b'c', b'A', b'B', b'example', b'Example', b'EXAMPLE', b'or
           # octets that differ from another legal octet only in bit 0x20 without being letters, Z/z (the last letter of the
           # case range), labels whose printed form collides with a sequence of labels
           b'srv[1}', b'srv{1}', b'{id}', b'[id]', b'_dmarc', b'\x7fdmarc', b'a@b', b'a`b', b'Zone', b'zone', b'ZZ', b'zz',
-          b'\xc3\x89', b'\xc3\xa9', b'b.example', b'a.b.example']
+          b'\xc3\x89', b'\xc3\xa9', b'b.example', b'a.b.example',
+          # presentation-format escapes are NOT interpreted on the wire
+          b'a\\b', b'\\046', b'a\\.b', b'\\', b'\\\\', b'x\\y', b'"q"', b'a b', b'a;b', b'(a)', b'@']
 
 def rand_label(rng):
     r = rng.random()
